@@ -146,7 +146,22 @@ impl Mon<T, T> {
             viol!("C07", "len() = {} but iteration yields {} entries {ctx}", self.map.len(), items.len());
         }
         if self.map.capacity() < self.map.len() {
-            viol!("C07", "capacity() {} < len() {} {ctx}", self.map.capacity(), self.map.len());
+            return Err(Viol { extra: Vec::new(), prop: "C07", more: &["C04"], msg: format!("capacity() {} < len() {} {ctx}", self.map.capacity(), self.map.len()) });
+        }
+        // "later operations behave normally": the interrupted call must not have eaten into the
+        // room the main table keeps for the elements still waiting in the old table (C04)
+        if let Some(o) = &st1.old {
+            let l = o.table.len;
+            let need = l + (l + st1.r - 1) / st1.r;
+            let room = st1.main.capacity.saturating_sub(st1.main.len);
+            if l > 0 && room < need {
+                return Err(Viol {
+                    extra: Vec::new(),
+                    prop: "C07",
+                    more: &["C04"],
+                    msg: format!("the main table has room for {room} more elements but {l} are still in the old table and moving them takes {} insertions {ctx}", (l + st1.r - 1) / st1.r),
+                });
+            }
         }
         for (k, kid, pay, vid) in &items {
             if after.insert(*k, Slot { kid: *kid, vid: *vid, pay: *pay }).is_some() {
@@ -337,7 +352,7 @@ pub fn fault(a: &Args, rep: &mut Report) {
     'cases: for h in 0..sh.n {
         let mut hr = rng.fork();
         let size = if miri { *hr.pick(&[3usize, 9, 17]) } else { *hr.pick(&[1usize, 3, 7, 14, 20, 29, 30, 45, 60, 100, 130, 250]) };
-        let state = hr.below(7);
+        let state = crate::sweep::draw_state(&mut hr);
         let mode = if size <= 30 { *hr.pick(&[HMode::Good, HMode::SameTag, HMode::Const, HMode::Identity, HMode::LowEntropy]) } else { *hr.pick(&[HMode::Good, HMode::SameTag, HMode::Identity]) };
         let cfg = Cfg { elem: ElemKind::TrHeap, bh: Bh::new(mode, hr.below(3)), cap: usize::MAX, check_every: 1, cursor_every: 1, focus: "C07", ledger_only: false };
         // build the state once to learn the prefix
@@ -349,6 +364,7 @@ pub fn fault(a: &Args, rep: &mut Report) {
             rep.record(&cfg, &tag, s.finish(), |_| false);
             continue;
         }
+        rep.bump(&format!("directed_state_{state}_{}", if built { "built" } else { "not_reached" }), 1);
         if !built {
             // consistent map, just not the wanted state: release it normally
             drop(s);
